@@ -237,12 +237,27 @@ func cmdCheck(args []string) int {
 		}
 	}
 	seenCover := map[string]bool{}
+	var deadReturns []string
+	unitLive := map[*unit]bool{}
+	for _, j := range coverJobs {
+		if reach[j.o.name] && !strings.HasSuffix(j.o.name, "#cover.requires") {
+			unitLive[j.u] = true
+		}
+	}
 	for _, j := range coverJobs {
 		if !reach[j.o.name] && !seenCover[j.o.name] {
 			seenCover[j.o.name] = true
-			vacuous = append(vacuous, j.o.name)
+			if strings.HasSuffix(j.o.name, "#cover.requires") || !unitLive[j.u] {
+				// contradictory precondition, or no return reachable at all
+				vacuous = append(vacuous, j.o.name)
+			} else {
+				// a return that the precondition rules out (defensive code): reported, not an error
+				deadReturns = append(deadReturns, j.o.name)
+			}
 		}
 	}
+	sort.Strings(deadReturns)
+	deadReturnsGlobal = deadReturns
 	// known findings: re-check failed obligations with the finding excluded
 	var failed []job
 	for _, j := range jobs {
@@ -433,3 +448,5 @@ func (e *engine) checkBinding(fc *funcContract, fn *ssa.Function) error {
 type loopBindErr string
 
 func (e loopBindErr) Error() string { return string(e) }
+
+var deadReturnsGlobal []string
